@@ -2,13 +2,13 @@
 SPECIFICATION Spec
 CONSTANTS
   Target = "classic"
-  Kinds = {"string", "integer", "float", "bool", "choice", "file", "object", "group", "data", "pgroup", "datavalue"}
+  Kinds = {"string", "integer", "float", "bool", "choice", "file", "object", "group", "data", "pgroup", "datavalue", "gdata", "objectmulti"}
   VaryGroup = FALSE
   VaryDep = FALSE
   ValueSet = "all"
   Entries = {"Prime", "SetKey", "SetAll", "Check", "CheckOne"}
   MaxDepth = 2
-  Deviations = {"StaleRuleTable", "StrIdSkipsMembership", "PgTypeNeedsEntity"}
+  Deviations = {"StaleRuleTable", "PgTypeNeedsEntity", "MultiItemsUnchecked"}
 PROPERTY VerdictIsAccepts
 PROPERTY RejectedLeavesUnchanged
 INVARIANT HierarchyLaws
